@@ -439,6 +439,9 @@ fn w_tensor_basic(r: &mut Rng, h: &mut H) {
     let (a, b, c) = (1 + (r.next() % 3) as usize, 1 + (r.next() % 4) as usize, 1 + (r.next() % 3) as usize);
     let data = r.vals(a * b * c);
     let t = Tensor::from([("a", a), ("b", b), ("c", c)], data);
+    // a stateful producer: the order in which from_fn calls it is observable
+    let produced = Tensor::from_fn([("p", b), ("q", c)], |_| r.val());
+    h.fs(produced.iter());
     h.shape(t.shape());
     h.fs(t.iter());
     for (i, x) in t.iter().with_index() {
